@@ -230,3 +230,15 @@ Definition jnz_convert (t : sty) (v : ref) : G ref :=
   if negb (sfloat t) && (ssize t <? 4) then convert (SInt I4 true) t v
   else if sfloat t || (4 <? ssize t) then convert SBool t v
   else gret v.
+
+(* ------------------------------------------------------------------ funcexpr on side-effect-free expressions *)
+(* The cases EXPRCONST, EXPRTEMP, EXPRCAST, EXPRUNARY '-', EXPRBINARY (not && ||) of funcexpr; [leaf] gives the
+   value already computed for each leaf.  (LowerFn.funcexpr emits the same sequences through the same functions.) *)
+Fixpoint gexpr (leaf : positive -> ref) (e : pexpr) : G ref :=
+  match e with
+  | PConst t n => gret (mkint n)
+  | PTemp t x => gret (leaf x)
+  | PCast t e1 => dog l <- gexpr leaf e1; convert t (ptype e1) l
+  | PNeg t e1 => dog r <- gexpr leaf e1; ginst Oneg (qbase t) r None
+  | PBin o t l r => dog a <- gexpr leaf l; dog b <- gexpr leaf r; gbinop o t a b
+  end.
